@@ -164,7 +164,7 @@ def run(ctx):
                    note="every kind; 2 slots x 2 objects, 2 requests per connection, %d mutator step(s) over every distinct touch set of "
                         "the 362-mutator alphabet; reset sets as in the code with the proposed headerLength repair" % (1 if q else 2))
     _expect_violation(ctx, "CtxLifecycle_neg.cfg", "ctx.Keys = nil dropped from RequestContext.ResetWithoutConn")
-    _expect_violation(ctx, "CtxLifecycle_asis.cfg", "reset functions as written: ResponseHeader.headerLength is never cleared (known finding)")
+    _expect_violation(ctx, "CtxLifecycle_asis.cfg", "model variant without the ResponseHeader.headerLength reset (the defect fixed in hertz) must violate FreshAtProbe")
 
     # 2. histories enumerated by TLC
     cases, n = lib.gen_cases(ctx, "CtxLifecycleGen", "CtxLifecycleGen_quick.cfg" if q else "CtxLifecycleGen_thorough.cfg",
